@@ -1,6 +1,5 @@
 (* C14 for GEOS-Chem bpch: byte prefixes of reference-encoded bpch files through bpch1.
-   Built on the C18 case record (Corr/C18.v) and the model of Model/Bpch.v; meant to be used QUALIFIED from Corr/C09.v /
-   Corr/C14.v (`Require PNC.Corr.BpchPrefix.` without Import: Model.Bpch and Model.Uamiv share names such as view, v_nx, enc).
+   Built on the C18 case record (Corr/C18.v) and the model of Model/Bpch.v; meant to be used QUALIFIED from Corr/C14.v (`Require PNC.Corr.BpchPrefix.` without Import: Model.Bpch and Model.Uamiv share names such as view, v_nx, enc).
    F : reference encoder == Coq enc and bpch1 == impl_open on the cut file (C18's checkF).
    S : the C14 statement - the reader raises, or presents exactly the first k WHOLE time blocks of the full file.
    region : bpch_tracer_cut_region when the cut is exactly at a tracer boundary strictly inside the first time block
@@ -11,7 +10,7 @@ From PNC Require Import Base.Util Base.Words Model.Bpch Corr.C18.
 Import Coq.Lists.List. Import ListNotations.
 Local Open Scope Z_scope.
 
-Definition bpch_tracer_cut_region : nat := 16%nat.
+Definition bpch_tracer_cut_region : nat := 18%nat.
 
 Definition bcase := Corr.C18.case_t.
 
